@@ -31,6 +31,14 @@ CHECKS = {
              "must be dimensionless, independent and of size n - rank. Exhaustive over the pair domain in the thorough tier, seed-strided in quick.",
         note="Float/Decimal exponents restricted to dyadic rationals (no rounding artefacts). Integrality of pi-theorem exponents is not part of the statement and not asserted.",
         design="5/C04"),
+    "C20": dict(
+        technique="complete enumeration of an independently curated table of ~260 standard values x spellings x {Fraction, float} registries (differential oracle: the table)",
+        text="Each entry of data/standards.txt (SI and binary prefixes, SI units, defining constants, yard/pound multiples, US/imperial capacity, avoirdupois/"
+             "troy/apothecary, pressure/energy/power units, CGS, information, temperature probe points, CODATA 2022 values) is converted to an SI base-unit "
+             "expression and compared with the tabulated value: == in the Fraction registry for exact entries, 1e-45 for pi-dependent ones, 10x CODATA "
+             "uncertainty for derived constants, ulp tolerance in float; names, symbols and spellings are checked too. The table is finite and enumerated completely.",
+        note="The table was written offline from memory of the standards and cross-checked by consistency relations; units without an international definition are left out.",
+        design="5/C20"),
 }
 
 NOT_YET = "check not built yet in this session (work in progress, see DESIGN.md section 5)"
